@@ -208,7 +208,10 @@ namespace AIToolbox::POMDP {
             // Note that here we take the max over all IR: since we're
             // computing an upper bound, we want to assume that we're going to
             // do the best possible thing after each action forever.
-            oldQ.fill(max / std::max(0.0001, 1.0 - m.getDiscount()));
+            // Only guard against a division by zero: for any discount below
+            // 1 the over-estimate must be max / (1 - discount), a larger
+            // denominator would start below the bound for positive rewards.
+            oldQ.fill(max / (m.getDiscount() < 1.0 ? 1.0 - m.getDiscount() : 0.0001));
         }
 
         unsigned timestep = 0;
